@@ -13,12 +13,19 @@ Proof. reflexivity. Qed.
 Lemma copy_is_deep : forall attr : bool, (if attr then copy_mode_with_attributes else copy_mode_data_only) = Copy.
 Proof. intros []; reflexivity. Qed.
 (* every container of the copy is filled from the same container of the source, in both branches of mesh.copy *)
-Lemma copy_plumbing_is_identity (attr : bool) (so : obj) cs : copy_obj attr so cs = with_cells so cs.
-Proof. destruct attr, so as [? ? ? ? [? ? ? ? ? ?] ?]; reflexivity. Qed.
+Lemma copy_plumbing_is_identity (attr : bool) (so : obj) cs :
+  copy_obj attr so cs = mkobj cs (oedges so) (ofaces so) (occells so) (ocorn so) (if attr then oattr so else []) (okind so).
+Proof. destruct attr, so as [? ? ? ? [? ? ? ? ? ?] ? ?]; reflexivity. Qed.
 Lemma copy_connectivity_is_deep : copy_connectivity_mode = Copy.
 Proof. reflexivity. Qed.
 Lemma prepare_copies : prepare_vertex_mode = Copy.
 Proof. reflexivity. Qed.
+(* the exporters that append to a PolyLine() directly (boundary of a surface, exported shortest paths, the three spanning
+   trees) append copies *)
+Lemma appenders_copy : forall p, (0 <= p <= 4)%Z -> append_mode p = Copy.
+Proof.
+  intros p H. assert (p = 0 \/ p = 1 \/ p = 2 \/ p = 3 \/ p = 4)%Z as [-> | [-> | [-> | [-> | ->]]]] by lia; reflexivity.
+Qed.
 Lemma translate_by_value : translate_param_by_value = true.
 Proof. reflexivity. Qed.
 Lemma ring_all_fresh N nc open : Forall (fun s => s = SFresh) (ring_pattern N nc open).
